@@ -21,6 +21,7 @@ static void begin (void) { b0 = sc_memory_status (sc_package_id); d0 = sc_memory
 static void end (const char *name)
 {
   printf ("LIFE %s %d %d\n", name, sc_memory_status (sc_package_id) - b0, sc_memory_status (-1) - d0);
+  fflush (stdout);              /* a leak report at exit ends the process without flushing stdio */
 }
 
 int main (int argc, char **argv)
@@ -178,6 +179,38 @@ int main (int argc, char **argv)
       s = SC_REALLOC (s, char, 0);
       end ("refcount_strings");
     }
+    {                           /* codec: encode, decode_info, decode on valid, truncated and garbage text (error paths must
+                                   give everything back: the caller destroys only what it created) */
+      sc_array_t *data, *code, *out;
+      size_t len, k, osz; char fmt;
+      begin ();
+      data = sc_array_new_count (1, (size_t) n);
+      for (i = 0; i < n; ++i) data->array[i] = (char) rnd (256);
+      code = sc_array_new (1);
+      sc_io_encode (data, code);
+      out = sc_array_new (1);
+      (void) sc_io_decode_info (code, &osz, &fmt, NULL);
+      (void) sc_io_decode (code, out, 0, NULL);
+      /* every prefix length 0..8 and a few longer ones, NUL terminated, and the same without terminator */
+      for (k = 0; k <= code->elem_count + 1; k = k < 9 ? k + 1 : k + 1 + rnd (40)) {
+        sc_array_t *cut = sc_array_new_count (1, k + 1);
+        len = k < code->elem_count ? k : code->elem_count;
+        if (len) memcpy (cut->array, code->array, len);
+        for (i = (int) len; i < (int) k; ++i) cut->array[i] = 'A';
+        cut->array[k] = '\0';
+        (void) sc_io_decode_info (cut, &osz, &fmt, NULL);
+        (void) sc_io_decode (cut, out, round & 1 ? 0 : 5, NULL);
+        if (k > 2) { cut->array[rnd ((unsigned) k)] ^= (char) (1 + rnd (255)); (void) sc_io_decode (cut, out, 0, NULL); }
+        cut->array[k] = 'B';      /* not terminated */
+        (void) sc_io_decode (cut, out, 0, NULL);
+        (void) sc_io_decode (cut, NULL, 0, NULL);        /* in place */
+        sc_array_destroy (cut);
+      }
+      sc_array_destroy (out);
+      sc_array_destroy (code);
+      sc_array_destroy (data);
+      end ("codec");
+    }
     {                           /* statistics object */
       sc_statistics_t *st;
       begin ();
@@ -191,5 +224,6 @@ int main (int argc, char **argv)
     }
   }
   printf ("LIFE finalize %d 0\n", sc_finalize_noabort ());
+  fflush (stdout);
   return 0;
 }
